@@ -11,7 +11,7 @@ using namespace sim;
 
 enum { OP_CS = 0, OP_PEEK, OP_THINK, OP_G, OP_N };
 static const char *op_names[OP_N] = {"cs", "peek", "think", "guard"};
-static const char *go_names[] = {"ctor_lock", "ctor_defer", "ctor_adopt", "ctor_default", "lock", "unlock", "move_ctor", "move_assign", "swap", "destroy", "is_locked", "protects"};
+static const char *go_names[] = {"ctor_lock", "ctor_defer", "ctor_adopt", "ctor_default", "lock", "unlock", "move_ctor", "move_assign", "swap", "destroy", "is_locked", "protects", "guard()", "guard(dont_lock)"};
 enum { CFG_TICKET = 0, CFG_SIMPLE, CFG_GUARDS, CFG_QSGUARD, CFG_N };
 static const char *cfg_names[CFG_N] = {"ticket_spinlock", "simple_spinlock", "unique_lock+shared_lock<SimMutex>", "qs::lock_guard<SimMutex>"};
 
@@ -47,7 +47,7 @@ struct LockEngine : Engine {
 	void describe(std::map<std::string, std::string> &kv) override {
 		kv["real_code"] = "frg::ticket_spinlock, frg::simple_spinlock, frg::unique_lock, frg::shared_lock, frg::lock_guard (qs.hpp) — unmodified headers, TSan-ABI instrumented";
 		kv["stubs"] = "SimMutex (scheduler-level mutex with owner/kind accounting) under the guards; critical-section body and scripts are harness code";
-		kv["guard_op_codes"] = "0 ctor_lock,1 ctor_defer,2 ctor_adopt,3 ctor_default,4 lock,5 unlock,6 move_ctor,7 move_assign,8 swap,9 destroy,10 is_locked,11 protects";
+		kv["guard_op_codes"] = "0 ctor_lock,1 ctor_defer,2 ctor_adopt,3 ctor_default,4 lock,5 unlock,6 move_ctor,7 move_assign,8 swap,9 destroy,10 is_locked,11 protects,12 frg::guard(m),13 frg::guard(dont_lock,m)";
 	}
 
 	void generate(Rng &rng, Plan &p, const std::string &profile, int tier) override {
@@ -84,7 +84,7 @@ struct LockEngine : Engine {
 						static const int ops[] = {GO_CTOR_LOCK, GO_CTOR_LOCK, GO_LOCK, GO_UNLOCK, GO_UNLOCK, GO_DESTROY};
 						o.a[0] = ops[rng.below(6)]; o.a[1] = rng.below(2); o.a[2] = 0; o.a[3] = rng.below(nm);
 					} else {
-						o.a[0] = rng.below(12);
+						o.a[0] = rng.below(14);
 						int ty = (int)rng.below(2); // 0: unique slots 0,1 ; 1: shared slots 2,3
 						o.a[1] = ty * 2 + rng.below(2); o.a[2] = ty * 2 + rng.below(2); o.a[3] = rng.below(nm);
 						if ((o.a[0] == GO_CTOR_LOCK || o.a[0] == GO_LOCK) && rng.chance(1, 6)) o.a[3] += 16; // this acquisition fails: the mutex's lock() throws
@@ -191,11 +191,12 @@ struct LockEngine : Engine {
 		int gt = cfg == CFG_QSGUARD ? GT_QS : (a >= 2 ? GT_SHARED : GT_UNIQUE);
 		if (cfg == CFG_QSGUARD) { a &= 1; b = a; if (gop != GO_CTOR_LOCK && gop != GO_LOCK && gop != GO_UNLOCK && gop != GO_DESTROY) { probe(P_guard_skipped); return; } }
 		else if ((a >= 2) != (b >= 2)) b = a;
+		if (gop == GO_GUARD_LOCK || gop == GO_GUARD_DEFER) { if (cfg != CFG_GUARDS) { probe(P_guard_skipped); return; } if (a >= 2) a -= 2; b = a; gt = GT_UNIQUE; }
 		Slot &A = model[me][a], &B = model[me][b];
 		bool ok = true;
 		switch (gop) {
-		case GO_CTOR_LOCK: ok = !A.exists && !holds_ge(me, m); break;
-		case GO_CTOR_DEFER: case GO_CTOR_DEFAULT: ok = !A.exists; break;
+		case GO_CTOR_LOCK: case GO_GUARD_LOCK: ok = !A.exists && !holds_ge(me, m); break;
+		case GO_CTOR_DEFER: case GO_CTOR_DEFAULT: case GO_GUARD_DEFER: ok = !A.exists; break;
 		case GO_CTOR_ADOPT: ok = !A.exists && !holds_ge(me, m); break;
 		case GO_LOCK: ok = A.exists && A.mutex >= 0 && !A.owns && !holds_ge(me, A.mutex); break;
 		case GO_UNLOCK: ok = A.exists && A.owns; break;
@@ -219,6 +220,8 @@ struct LockEngine : Engine {
 			}
 			if (mtx[m]->owner >= 0 && mtx[m]->owner != me) probe(P_blocked_on_guard);
 			sut_guard_op(gt, gop, slots[me][a], nullptr, mtx[m]); A = {true, m, true}; break;
+		case GO_GUARD_LOCK: sut_guard_op(gt, gop, slots[me][a], nullptr, mtx[m]); A = {true, m, true}; break;
+		case GO_GUARD_DEFER:
 		case GO_CTOR_DEFER: sut_guard_op(gt, gop, slots[me][a], nullptr, mtx[m]); A = {true, m, false}; break;
 		case GO_CTOR_ADOPT:
 			probe(P_adopt);
